@@ -2,7 +2,7 @@ import PynencModel.Model.Stop
 import PynencModel.Model.Basic
 import PynencModel.Gen.StatusTable
 /-
-  Driver fragment for C11: `stop.terminals <ok|fail|retry> <pending|finished>` prints the set of terminal
+  Driver fragment for C11: `stop.terminals <ok|fail|retry|pause> <pending|finished>` prints the set of terminal
   (status/owner/queued) triples of the Lean stop model for a task thread that had not started (`pending`) or had already
   finished (`finished`) when the stop request arrived.
 -/
@@ -17,7 +17,7 @@ def showTerm (s : Stop.St) : String :=
 
 def handle (w : St) : List String → Option (St × String)
   | ["stop.terminals", script, start] =>
-    let sc : Option Script := match script with | "ok" => some .ok | "fail" => some .fail | "retry" => some .retry | _ => none
+    let sc : Option Script := match script with | "ok" => some .ok | "fail" => some .fail | "retry" => some .retry | "pause" => some .pause | _ => none
     match sc with
     | none => some (w, "bad-op")
     | some sc =>
